@@ -309,8 +309,11 @@ class DefaultObjectMapper(object):
                     continue
             value = obj.eGet(attr)
             serialize_default_option = JsonOptions.SERIALIZE_DEFAULT_VALUES
+            # (an id is written even when it equals the default value:
+            # references to the object are written with it)
+            is_id = attr.is_attribute and attr.iD and value is not None
             if (not options.get(serialize_default_option, False)
-                and value == attr.get_default_value()):
+                and value == attr.get_default_value() and not is_id):
                 continue
             write_object = resource.to_dict(value,
                                             is_noncont_ref=is_ref,
